@@ -1,0 +1,104 @@
+//! Read-only introspection for the verification harness (`--cfg feoxdb_verif`).
+//!
+//! Nothing here mutates the store, touches reference bits, or wakes a worker.
+
+use std::sync::atomic::Ordering;
+use std::sync::Arc;
+
+use super::FeoxStore;
+
+#[derive(Clone, Debug, PartialEq, Eq)]
+pub struct VerifPeek {
+    pub timestamp: u64,
+    pub expiry: u64,
+    pub value_len: usize,
+    pub sector: u64,
+    pub resident: bool,
+    pub cached: bool,
+}
+
+#[derive(Clone, Debug, PartialEq, Eq)]
+pub struct VerifRecord {
+    pub key: Vec<u8>,
+    pub timestamp: u64,
+    pub expiry: u64,
+    pub value_len: usize,
+    pub sector: u64,
+    pub resident: bool,
+}
+
+#[derive(Clone, Debug, Default)]
+pub struct VerifSnapshot {
+    /// Every record in the hash index.
+    pub records: Vec<VerifRecord>,
+    /// Keys of the ordered index, in iteration order.
+    pub tree_keys: Vec<Vec<u8>>,
+    /// Maximal free runs `(start block, blocks)` as the free-space manager holds them.
+    pub free_runs: Vec<(u64, u64)>,
+    pub disk_usage: u64,
+    pub format_version: u32,
+    pub device_size: u64,
+    pub shard_pending: Vec<usize>,
+    pub retirements_pending: usize,
+    pub worker_count: usize,
+}
+
+impl FeoxStore {
+    pub fn verif_peek(&self, key: &[u8]) -> Option<VerifPeek> {
+        let record = self.hash_table.read(key, |_, record| Arc::clone(record))?;
+        let cached = self
+            .cache
+            .as_ref()
+            .is_some_and(|cache| cache.verif_holds(key, &record));
+        let resident = record.value.read().is_some();
+        Some(VerifPeek {
+            timestamp: record.timestamp,
+            expiry: record.ttl_expiry.load(Ordering::Acquire),
+            value_len: record.value_len,
+            sector: record.sector.load(Ordering::Acquire),
+            resident,
+            cached,
+        })
+    }
+
+    pub fn verif_snapshot(&self) -> VerifSnapshot {
+        let mut records = Vec::new();
+        self.hash_table.scan(|key, record| {
+            let resident = record.value.read().is_some();
+            records.push(VerifRecord {
+                key: key.clone(),
+                timestamp: record.timestamp,
+                expiry: record.ttl_expiry.load(Ordering::Acquire),
+                value_len: record.value_len,
+                sector: record.sector.load(Ordering::Acquire),
+                resident,
+            });
+        });
+        records.sort_by(|left, right| left.key.cmp(&right.key));
+        let tree_keys = self.tree.iter().map(|entry| entry.key().clone()).collect();
+        let (shard_pending, retirements_pending, worker_count) = match self.write_buffer.as_ref() {
+            Some(write_buffer) => write_buffer.verif_pending(),
+            None => (Vec::new(), 0, 0),
+        };
+        VerifSnapshot {
+            records,
+            tree_keys,
+            free_runs: self.free_space.read().verif_free_runs(),
+            disk_usage: self.stats.disk_usage.load(Ordering::Relaxed),
+            format_version: self.format_version,
+            device_size: self.device_size,
+            shard_pending,
+            retirements_pending,
+            worker_count,
+        }
+    }
+
+    pub fn verif_format_version(&self) -> u32 {
+        self.format_version
+    }
+
+    /// The cache this store reads through, if caching is enabled.
+    pub fn verif_cache(&self) -> Option<Arc<crate::core::cache::ClockCache>> {
+        self.cache.clone()
+    }
+}
